@@ -62,6 +62,13 @@ func (e *Engine) load(patterns []string) error {
 			} else {
 				e.cfiles[p.PkgPath] = cf
 			}
+			for _, im := range cf.Immutable {
+				if i := strings.LastIndex(im, "."); i >= 0 {
+					e.immutable[e.resolvePkgPath(im[:i])+"."+im[i+1:]] = true
+				} else {
+					e.immutable[p.PkgPath+"."+im] = true
+				}
+			}
 			for _, c := range cf.Contracts {
 				if c.Extern {
 					pk, key := splitExternKey(c.Key)
